@@ -181,6 +181,16 @@ RowClauses(num, proba, ord, label, K, scale, tol, Le(_, _), Zero) ==
   >>
 
 -----------------------------------------------------------------------------
+(* Part 1c: the convergence test.  d = the change of the lower bound in the last EM iteration of a  *)
+(* run, encoded as round(change * 10^9), dnum = FALSE if it is infinite (first iteration) or >= 2^30; *)
+(* tolerance = toln / told.  Converged <=> |change| < tolerance ; the encoding (1/2 unit) and the    *)
+(* rounding of the tolerance to the float type (relative 10^-6) make changes that close a tie.      *)
+DS == 1000000000
+ConvOk(dnum, d, toln, told) ==
+  /\ dnum
+  /\ LET t == MulDiv(DS, toln, told) IN Abs(d) <= t + 1 + t \div 1000000
+
+-----------------------------------------------------------------------------
 (* Part 2: design model *)
 IntLe(a, b) == a <= b
 Regs == {<<0, 1>>, <<1, 2>>, <<1, 10>>}
@@ -415,6 +425,17 @@ InvBudget ==
       /\ SelectedConverged(X, 2, r, cont, "sticky" \in Forms)
       /\ SelectedConverged(X, 3, r, cont, "sticky" \in Forms)
       /\ BudgetStable(X, 2, 3, r, cont, "sticky" \in Forms)
+
+\* the convergence clause on a lattice of changes: agrees with |change| < tolerance away from the tie
+\* zone, rejects a decrease of the lower bound by more than the tolerance (which a signed test accepts)
+InvConvClause ==
+  pc = "boot" =>
+    \A tl \in {<<1, 10>>, <<1, 1000>>, <<1, 1000000>>} :
+      LET t == (DS \div tl[2]) * tl[1] IN
+      /\ \A d \in {-3 * t, -t - 3 - t \div 1000000, t + 3 + t \div 1000000, 2 * t} : ~ConvOk(TRUE, d, tl[1], tl[2])
+      /\ \A d \in {-t + 1, -1, 0, 1, t - 1} : ConvOk(TRUE, d, tl[1], tl[2])
+      /\ ~ConvOk(FALSE, 0, tl[1], tl[2])
+      /\ (-3 * t < t) /\ ~ConvOk(TRUE, -3 * t, tl[1], tl[2])          \* the signed test `change < tolerance` would accept -3t
 
 \* the trace clause alone (used by the negative run: it must notice the flag that is not reset)
 InvBudgetClause ==
